@@ -242,6 +242,22 @@ fn mutate_text(rng: &mut Rng, s: &str) -> String {
     chars.into_iter().collect()
 }
 
+/// A script that builds, without any service, a value nested `n` levels deep: every canon result becomes the only
+/// element of the next stream.
+pub fn nested_canon_script(n: usize) -> String {
+    let mut parts = vec!["(ap 1 $s0)".to_string(), "(canon \"@P0\" $s0 #c0)".to_string()];
+    for k in 1..n {
+        parts.push(format!("(ap #c{} $s{k})", k - 1));
+        parts.push(format!("(canon \"@P0\" $s{k} #c{k})"));
+    }
+    parts.push("(call \"@P1\" (\"s\" \"str1\") [] z)".to_string());
+    let mut s = parts.pop().unwrap();
+    while let Some(p) = parts.pop() {
+        s = format!("(seq {p} {s})");
+    }
+    s
+}
+
 /// Scripts (peers @P0, @P1) driven to the end with the service model.
 const DRIVEN_SCRIPTS: &[(&str, &str)] = &[
     // the `next` of a stream fold sits in an inner fold and runs once per inner iteration
@@ -260,8 +276,6 @@ const DRIVEN_SCRIPTS: &[(&str, &str)] = &[
     ("clash-nested-same-iterator", r#"(seq (ap 1 $s) (seq (canon "@P0" $s #c) (fold #c i (fold #c i (seq (ap i y) (next i))))))"#),
     // a scalar under new that is read before the pending call has set it
     ("new-scalar-read-before-set", r#"(new x (seq (par (call "@P1" ("s" "num1") [] x) (null)) (xor (call "@P0" ("s" "str1") [x]) (call "@P0" ("s" "str2") []))))"#),
-    // values nested deeper than the JSON parser's recursion limit, built by the script itself
-    ("self-nesting-canon", r#"(seq (ap 1 $s) (fold $s i (seq (canon "@P0" $s #c) (seq (xor (match #c.length 140 (null)) (new $t (seq (ap #c $t) (seq (canon "@P0" $t #d) (ap #d.$.[0] $s))))) (next i)))))"#),
 ];
 
 /// Valid JSON of every type, as a service may legally return it.
@@ -590,6 +604,7 @@ pub fn run(cfg: &Cfg) -> Report {
         for (l, t) in DRIVEN_SCRIPTS {
             driven.push((l.to_string(), t.to_string()));
         }
+        driven.push(("values-nested-135-deep".to_string(), nested_canon_script(135)));
         for (k, (label, text)) in driven.iter().enumerate() {
             let mut air = text.clone();
             for (i, id) in ids.iter().enumerate() {
@@ -605,7 +620,7 @@ pub fn run(cfg: &Cfg) -> Report {
                 let history = run_random(&world, &mut rng, &sched);
                 stats.inc("driven_odd_script_runs", history.steps.len() as u64);
                 for s in &history.steps {
-                    planned.push((u64::MAX, Planned { case: exec_case(&s.input, false, true), label: format!("script:driven-{label}"), group: "hostile-scripts" }));
+                    planned.push((u64::MAX, Planned { case: exec_case(&s.input, true, true), label: format!("script:driven-{label}"), group: "hostile-scripts" }));
                 }
             }
         }
